@@ -11,6 +11,31 @@ CHECKS = {
         technique="relational oracle on executions: AD getter vs finite differences of neighbouring states (seeded random workload, all model families)",
         ref="DESIGN.md 2/C01",
     ),
+    "C02": dict(
+        text="Runtime monitoring of identities between the derivatives one state reports: Euler A=-pV+sum mu N, V dp/dV+sum N dp/dN=0 (residual and total), sum_j N_j dmu_i/dN_j=V dp/dN_i, symmetry of dmu/dN via an independent swapped hyper-dual evaluation, sum_i N_i dlnphi_i/dN_j=0, partial molar v/s/h sums, and invariance of intensive properties under (V,N)->(lambda V, lambda N), lambda in [1e-3,1e3], on 3.5e3 (quick) / 1.7e5 (thorough) random states of every model family incl. functionals, 1-4 components.",
+        note="Identities are judged relative to the sum of |terms| with tolerance 3e-10 (1e-9 for scale invariance), relaxed by 0.1/eta at packing fractions where the residual loses precision and for dilute components in the second composition derivatives.",
+        technique="relational oracle on executions: exact thermodynamic identities between getters of one state, metamorphic (lambda V, lambda N) pairs",
+        ref="DESIGN.md 2/C02",
+    ),
+    "C08": dict(
+        text="Differential monitoring of pairs of code paths for the same model on random states: functional vs EoS (PC-SAFT x 3 FMT versions, pure-optimised and mixture paths, gc-PC-SAFT, PeTS, SAFT-VRQ Mie; A, p, S, mu, dp/dV, dp/dT, dS/dT, dmu/dN), FMT vs harness BMCSL closed form, enum and ideal-gas wrappers vs bare models, ePC-SAFT without ions vs PC-SAFT, SAFT-VRQ Mie FH0 vs SAFT-VR Mie monomers, analytic vs Newton association at all dual orders, homosegmented GC vs hand-combined record, PR vs textbook closed form in SI. Recorded defects F14-F16 are reported as KNOWN-FINDING.",
+        note="Pair tolerances 1e-9..1e-13 scaled by the state's residual energy scale (1e-3 for the VRQ/VR Mie pair whose hard-sphere diameters use different quadratures; relaxed at low density for functionals). Harness closed forms (BMCSL, PR, GC combining rules) are trusted.",
+        technique="differential oracle on executions: two implementations of one model on the same seeded random states",
+        ref="DESIGN.md 2/C08",
+    ),
+    "C10": dict(
+        text="Runtime monitoring of Total = IdealGas + Residual for every selector-taking getter (each selector on a fresh state), residual-API vs selector-API agreement, p_IG = rho R T in SI, ideal mixing of mu^IG, residual properties vanishing like rho at 1e-8..1e-4 rho_max, and c_p^IG from the Helmholtz derivative vs harness closed forms of the Joback polynomial and DIPPR 100/107/127 for every poling2000 record, every gc substance assembled from joback1987 groups and random coefficient sets, T in [150,1500] K, pure and mixtures.",
+        note="Closed forms of the published correlations are the reference model (1e-6; the Joback implementation rescales by the ratio of 2014/2019 gas constants). Sum identities 1e-12 relative to |terms|, relaxed at low packing fraction.",
+        technique="relational oracle on executions + reference-model monitor (closed-form heat-capacity correlations)",
+        ref="DESIGN.md 2/C10",
+    ),
+    "C13": dict(
+        text="Runtime monitoring of B, C, dB/dT, dC/dT of random pure/binary/ternary models of every non-electrolyte family against the low-density limit built from finite-density states of the same model ((Z-1)/rho at rho, 2rho, 4rho at two density levels, Richardson-extrapolated, the level difference as error bar) and against finite differences in T; finiteness of all four. Recorded defects (uv-theory BH, SAFT-VRQ Mie mixtures, functionals) are reported as KNOWN-FINDING.",
+        note="Reference accuracy 1e-9 (B) / 1e-5 (C) where the density expansion converges at the probe densities; cases where it does not (strong association at low T) are counted as unresolved, not checked.",
+        technique="relational oracle on executions: virial getters vs extrapolated finite-density states of the same model",
+        ref="DESIGN.md 2/C13",
+    ),
+
 }
 
 NOT_YET = {}
